@@ -169,6 +169,7 @@ fn gen(seed: u64, family: &str, tier: Tier) -> Case {
     let mut r = Rng::new(seed ^ fnv64("C12"));
     let mut w = World::gen_graph(&mut r, &graph_params(tier));
     gen_traversal(&mut r, &mut w);
+    gen_extras(&mut r, &mut w);
     gen_algorithm(&mut r, &mut w, true, true);
     gen_termination(&mut r, &mut w);
     let mut pc = gen_plugins(&mut r, &mut w);
@@ -177,7 +178,11 @@ fn gen(seed: u64, family: &str, tier: Tier) -> Case {
         w.algorithm = json!({"type": "yens", "k": r.range(2, 3), "underlying": {"type": "dijkstra"}});
         w.termination = json!({"type": "query_runtime", "limit": "00:10:00", "frequency": 100000});
         w.input_plugins = vec![];
-        pc = PluginChoice { override_heavy: false, grid: false, lb: None, inject: false, rtree: false };
+        w.headings = None;
+        w.road_classes = None;
+        w.uuid_plugin = false;
+        w.edge_oriented = false;
+        pc = PluginChoice { override_heavy: false, grid: false, lb: None, inject: false, rtree: false, edge_rtree: false };
         // tiny fixed shapes that are certain to meet each finding: a single edge (best route of one
         // edge: the `len() - 2` underflow) or a chain of three edges (a pass that accepts no candidate)
         let n = if family == "yens-known-panic" { 2 } else { 4 };
@@ -186,7 +191,7 @@ fn gen(seed: u64, family: &str, tier: Tier) -> Case {
         w.speeds = vec![50.0; n - 1];
         w.grades = vec![0.0; n - 1];
     }
-    w.edge_oriented = !pc.rtree && !family.starts_with("yens-known") && r.chance(0.25);
+    w.edge_oriented = pc.edge_rtree || (!pc.rtree && !family.starts_with("yens-known") && r.chance(0.25));
     w.parallelism = r.range(1, 8) as usize;
     w.persist = true;
     w.out = None;
@@ -386,6 +391,7 @@ impl Check for C12 {
         let obs = execute(case, ExecOpts { reference: true, trace: false, log_clock: false, explore_build: false }, Box::new(probe), fatal_fd);
         let (violations, mut reach, nontrivial) = judge(case, &obs);
         reach.insert("preemptions".into(), obs.stats.preemptions);
+        world_reach(&case.world, &mut reach);
         let sig = fnv64(&format!("{}|{}", serde_json::to_string(&case.batches).unwrap(), obs.stats.sched_hash));
         ChildResult {
             violations,
